@@ -441,7 +441,10 @@ func (e *Exec) doBinOp(fr *Frame, x *ssa.BinOp, st *State, g string) {
 	case token.SUB:
 		e.defineOpaque(fr, x, ii.wrapOnce("(- "+a.T+" "+b.T+")"))
 	case token.MUL:
-		e.defineOpaque(fr, x, ii.wrapMod("(* "+a.T+" "+b.T+")"))
+		r := e.defineOpaque(fr, x, ii.wrapMod("(* "+a.T+" "+b.T+")"))
+		// redundant but helpful: no wrap-around when the mathematical product is in range
+		prod := "(* " + a.T + " " + b.T + ")"
+		e.Out.Assert(Imp(ii.inRange(prod), Eq(r.T, prod)))
 	case token.QUO:
 		e.safety(fr, x, g, Not(Eq(b.T, "0")), "div-by-zero")
 		q := tdiv(a.T, b.T)
